@@ -12,6 +12,7 @@
   Grid *values* (Leja nodes) are not part of this model: a grid is its length; coordinates are tuples of positions.
 -/
 import AmiscModel.Index
+import AmiscModel.Generated.Logic
 import AmiscModel.Interp
 
 namespace Amisc
@@ -101,8 +102,9 @@ namespace Amisc
 def rebaseErrors : Nat → List Nat → List Nat → List (List Nat)
   | _, _, [] => []
   | start, errs, n :: ns =>
-      let stop := start + n
-      (errs.filter (· < stop)).map (· - start) :: rebaseErrors stop (errs.filter fun e => !decide (e < stop)) ns
+      let stop := Gen.stopOf start n
+      (errs.filter (Gen.errBelongs · stop)).map (Gen.errLocal · start) ::
+        rebaseErrors (Gen.nextStart stop) (errs.filter fun e => !Gen.errBelongs e stop) ns
 
 /-- stored value of one output at one coordinate: `none` = NaN -/
 abbrev Stored := Option Q
